@@ -18,6 +18,7 @@
 -/
 import Curtsies.Model.ParseArgs
 import Curtsies.Model.FmtStr
+import Curtsies.Generated.Fmtfuncs
 namespace Curtsies
 
 instance exceptDecEq [DecidableEq ε] [DecidableEq α] : DecidableEq (Except ε α)
@@ -46,9 +47,19 @@ theorem C14_tables :
 
 /-! ### what a specification denotes -/
 
-/-- A colour given by name (looked up in `table`) or by number, as an index 0..7. -/
+/-- A colour number `base .. base+7` as an index 0..7 (the specification's own reading; it does not use the
+    model's helpers). -/
+def specColour (base : Int) (i : Int) : Option (Fin 8) :=
+  if h : base ≤ i ∧ i < base + 8 then some ⟨(i - base).toNat, by omega⟩ else none
+
+/-- A colour given by name (looked up in `table`), as an index 0..7. -/
 def colourOfName (table : List (String × Nat)) (base : Int) (s : String) : Option (Fin 8) :=
-  (table.lookup s).bind fun code => colourIndex base (.int code)
+  (table.lookup s).bind fun code => specColour base code
+
+/-- `l` begins with the three characters `on_`. -/
+def onPrefix (l : String) : Bool := l.toList.take 3 == ['o', 'n', '_']
+/-- `s` without its first three characters. -/
+def afterOn (s : String) : String := String.ofList (s.toList.drop 3)
 
 /-- What one positional argument names (case-insensitively): a foreground colour, `on_` + a background
     colour, or a style; `none` = nothing (unknown name or not a string). -/
@@ -57,7 +68,7 @@ def posName (lower : String → String) : ArgVal → Option (Key × Option (Fin 
     match colourOfName fgTable 30 (lower s) with
     | some c => some (.fg, some c)
     | none =>
-      match (if startsWithOn (lower s) then colourOfName bgTable 40 (lower (strDrop3 s)) else none) with
+      match (if onPrefix (lower s) then colourOfName bgTable 40 (lower (afterOn s)) else none) with
       | some c => some (.bg, some c)
       | none => (styleNames.lookup (lower s)).map fun k => (k, none)
   | _ => none
@@ -65,7 +76,7 @@ def posName (lower : String → String) : ArgVal → Option (Key × Option (Fin 
 /-- The colour a keyword value stands for: a colour name or an in-range int (a bool or float is neither). -/
 def kwColour (table : List (String × Nat)) (base : Int) : ArgVal → Option (Fin 8)
   | .str s => colourOfName table base s
-  | .int i => colourIndex base (.int i)
+  | .int i => specColour base i
   | _ => none
 
 /-- A colour attribute: named at most once, by keyword (`kwv`) or by one positional (`pos`).
@@ -193,11 +204,10 @@ theorem C14_remove (f : FmtStr) (ks : List Key) :
 private theorem extend_self (a : Atts) : a.extend a = a := by simp [Atts.extend]
 private theorem empty_extend (a : Atts) : ({} : Atts).extend a = a := by simp [Atts.extend]
 
-/-- `copy_with_new_str` on a uniformly formatted string (every run has the dict `a`, at least one run):
-    the text is swapped, the formatting kept. -/
-theorem C14_newstr (f : FmtStr) (a : Atts) (t : Text) (hne : f ≠ []) (hu : ∀ c ∈ f, c.atts = a) :
+/-- `copy_with_new_str` on a uniformly formatted string - at least one character, every CHARACTER has the dict
+    `a` (empty runs may carry anything: the code ignores them, fix 7ad35a6): the text is swapped, the formatting kept. -/
+theorem C14_newstr (f : FmtStr) (a : Atts) (t : Text) (hne : cells f ≠ []) (hu : ∀ p ∈ cells f, p.2 = a) :
     copyWithNewStr f t = [⟨t, a⟩] := by
-  unfold copyWithNewStr
   have key : ∀ (g : FmtStr) (acc : Atts), (∀ c ∈ g, c.atts = a) → (acc = a ∨ (acc = {} ∧ g ≠ [])) →
       g.foldl (fun acc c => acc.extend c.atts) acc = a := by
     intro g
@@ -212,11 +222,45 @@ theorem C14_newstr (f : FmtStr) (a : Atts) (t : Text) (hne : f ≠ []) (hu : ∀
       rcases h with h | ⟨h, _⟩
       · rw [h, extend_self]
       · rw [h, empty_extend]
-  rw [key f {} hu (Or.inr ⟨rfl, hne⟩)]
+  -- the non-empty runs: there is one, and each has dict `a`
+  have hall : ∀ c ∈ f.filter (fun c : Chunk => !c.s.isEmpty), c.atts = a := by
+    intro c hc
+    rw [List.mem_filter] at hc
+    cases hs : c.s with
+    | nil => rw [hs] at hc; simp at hc
+    | cons ch rest =>
+      have : (ch, c.atts) ∈ cells f := by
+        simp only [cells, List.mem_flatMap, Chunk.cells, List.mem_map]
+        exact ⟨c, hc.1, ch, by rw [hs]; exact List.mem_cons_self .., rfl⟩
+      exact hu _ this
+  have hex : f.filter (fun c : Chunk => !c.s.isEmpty) ≠ [] := by
+    intro he
+    apply hne
+    simp only [cells, List.flatMap_eq_nil_iff]
+    intro c hc
+    cases hs : c.s with
+    | nil => simp [Chunk.cells, hs]
+    | cons ch rest =>
+      have : c ∈ f.filter (fun c : Chunk => !c.s.isEmpty) := by
+        rw [List.mem_filter]; exact ⟨hc, by rw [hs]; rfl⟩
+      rw [he] at this; cases this
+  unfold copyWithNewStr
+  simp only []
+  have hie : (f.filter (fun c : Chunk => !c.s.isEmpty)).isEmpty = false := by
+    cases hh : f.filter (fun c : Chunk => !c.s.isEmpty) with
+    | nil => exact absurd hh hex
+    | cons _ _ => rfl
+  rw [hie]
+  simp only [Bool.false_eq_true, if_false]
+  rw [key _ {} hall (Or.inr ⟨rfl, hex⟩)]
 
-theorem C14_newstr_cells (f : FmtStr) (a : Atts) (t : Text) (hne : f ≠ []) (hu : ∀ c ∈ f, c.atts = a) :
+theorem C14_newstr_cells (f : FmtStr) (a : Atts) (t : Text) (hne : cells f ≠ []) (hu : ∀ p ∈ cells f, p.2 = a) :
     cells (copyWithNewStr f t) = t.map fun ch => (ch, a) := by
   rw [C14_newstr f a t hne hu]; simp [Chunk.cells]
+
+/-- Non-vacuity / the D32 shape: an empty bold run in front of a red character does not leak `bold`. -/
+example : copyWithNewStr [⟨[], { bold := some true }⟩, ⟨['a'], { fg := some 1 }⟩] ['x'] = [⟨['x'], { fg := some 1 }⟩] := by
+  decide
 
 /-! ### shared_atts -/
 
@@ -408,6 +452,76 @@ theorem C14_lower_congr (l1 l2 : String → String) (args : List ArgVal) (kw : K
     simp only [hst, Option.toList_some] at h ⊢
     rw [step (args ++ [v]) _ h]
 
+
+/-! ### corollaries -/
+
+private theorem orElse_swap {α : Type} (x y z : Option α) (h : x.isSome = false ∨ y.isSome = false) :
+    (y.orElse fun _ => x.orElse fun _ => z) = (x.orElse fun _ => y.orElse fun _ => z) := by
+  cases x <;> cases y <;> simp_all
+
+/-- Order independence: two attribute dicts that name no common attribute can be applied in either order
+    (nesting `red(bold(x))` / `bold(red(x))`, or two `copy_with_new_atts`). -/
+theorem C14_order_indep (f : FmtStr) (a b : Atts) (h : ∀ k : Key, a.has k = false ∨ b.has k = false) :
+    copyWithNewAtts (copyWithNewAtts f a) b = copyWithNewAtts (copyWithNewAtts f b) a := by
+  have e : ∀ x : Atts, (x.extend a).extend b = (x.extend b).extend a := by
+    intro x
+    have h1 := h .bg; have h2 := h .blink; have h3 := h .bold; have h4 := h .dark
+    have h5 := h .fg; have h6 := h .invert; have h7 := h .italic; have h8 := h .underline
+    simp only [Atts.has] at h1 h2 h3 h4 h5 h6 h7 h8
+    simp only [Atts.extend, Atts.mk.injEq]
+    exact ⟨orElse_swap _ _ _ h1, orElse_swap _ _ _ h2, orElse_swap _ _ _ h3, orElse_swap _ _ _ h4,
+      orElse_swap _ _ _ h5, orElse_swap _ _ _ h6, orElse_swap _ _ _ h7, orElse_swap _ _ _ h8⟩
+  simp only [copyWithNewAtts, List.map_map]
+  apply List.map_congr_left
+  intro c _
+  simp [e]
+
+/-- A fmtfuncs helper called with ANY further positional and keyword arguments (no own `style=`) is `fmtstr`
+    with the helper's bound name as one more (last) positional argument; with an own `style=` the bound name is
+    replaced (functools.partial). -/
+theorem C14_fmtfunc_general (lower : String → String) (bound : String) (f : FmtStr) (args : List ArgVal) (kw : Kw)
+    (hb : (bound == "") = false) :
+    (kw.has "style" = false → fmtfuncApply lower bound f args kw = fmtstrApply lower f (args ++ [.str bound]) kw) ∧
+    (kw.has "style" = true → fmtfuncApply lower bound f args kw = fmtstrApply lower f args kw) := by
+  constructor
+  · intro hs
+    have hg : kw.get? "style" = none := by
+      cases h : kw.get? "style" with
+      | none => rfl
+      | some v =>
+        exfalso
+        have : kw.has "style" = true := by
+          simp only [Kw.get?, Option.map_eq_some_iff] at h
+          obtain ⟨p, hp, _⟩ := h
+          have := List.find?_some hp
+          simp only [Kw.has, List.any_eq_true]
+          exact ⟨p, List.mem_of_find?_eq_some hp, this⟩
+        rw [hs] at this; cases this
+    have hd : Kw.del kw "style" = kw := by
+      simp only [Kw.del]
+      apply List.filter_eq_self.mpr
+      intro p hp
+      cases hq : (p.1 == "style") with
+      | false => rfl
+      | true =>
+        exfalso
+        have : kw.has "style" = true := by simp only [Kw.has, List.any_eq_true]; exact ⟨p, hp, hq⟩
+        rw [hs] at this; cases this
+    simp only [fmtfuncApply, fmtfuncKw, hb, hs, Bool.or_self, Bool.false_eq_true, if_false, fmtstrApply, parseArgs, hg]
+    have e1 : Kw.get? (("style", ArgVal.str bound) :: kw) "style" = some (.str bound) := by simp [Kw.get?]
+    have e2 : Kw.del (("style", ArgVal.str bound) :: kw) "style" = kw := by
+      simp only [Kw.del, List.filter_cons]
+      simpa [Kw.del] using hd
+    rw [e1, e2]
+  · intro hs
+    simp [fmtfuncApply, fmtfuncKw, hs]
+
+/-- The live `fmtfuncs` module: every public callable is `functools.partial(fmtstr)` with no bound positional
+    argument and at most the keyword `style`, and these are exactly the names of the `fmtfuncs` table. -/
+theorem C14_fmtfuncs_shape :
+    (∀ p ∈ Generated.fmtfuncShape, p.2.1 = true ∧ p.2.2.1 = true ∧ p.2.2.2.1 = 0 ∧ ∀ k ∈ p.2.2.2.2, k = "style") ∧
+    Generated.fmtfuncShape.map Prod.fst = Generated.fmtfuncs.map Prod.fst := by
+  decide +kernel
 
 /-! ### towards the full statement
 
